@@ -295,6 +295,27 @@ def pageNodes (strip : Bool) (p : Page) : List Node :=
 def docSkeleton (strip : Bool) (ps : List Page) : Node :=
   .elem ['p','a','g','e','s'] [] (nl :: ps.flatMap (pageNodes strip))
 
+/-! ### the tree after `CONTROL.sub` on the strings `XMLConverter` strips (font name, glyph text, figure name,
+exported image name); the identity without strip_control -/
+
+mutual
+def stripItem (strip : Bool) : Item → Item
+  | .char f b cs nc sz t => .char (maybeStrip strip f) b cs nc sz (maybeStrip strip t)
+  | .anno t => .anno t
+  | .line lw b => .line lw b
+  | .rect lw b => .rect lw b
+  | .curve lw b pts => .curve lw b pts
+  | .image w h src => .image w h (src.map (maybeStrip strip))
+  | .figure n b kids => .figure (maybeStrip strip n) b (stripItemL strip kids)
+  | .textline b kids => .textline b (stripItemL strip kids)
+  | .textbox i b v kids => .textbox i b v (stripItemL strip kids)
+def stripItemL (strip : Bool) : List Item → List Item
+  | [] => []
+  | i :: is => stripItem strip i :: stripItemL strip is
+end
+
+def stripPage (strip : Bool) (p : Page) : Page := { p with kids := stripItemL strip p.kids }
+
 /-! ### plain text demanded by the property -/
 
 mutual
